@@ -50,3 +50,7 @@ mod tests {
         });
     }
 }
+#[cfg(cached_verif)]
+impl IncreasingIdGenerator {
+    pub(crate) fn verif_peek(&self) -> u64 { self.id.load(Ordering::Acquire) }
+}
